@@ -186,7 +186,7 @@ func init() {
 	register("c12mix", func(args []string) int {
 		fs := flag.NewFlagSet("c12mix", flag.ExitOnError)
 		rounds := fs.Int("rounds", 20, "rounds per scenario")
-		scenario := fs.String("scenario", "shared", "shared | private | sharedtypes | sharedallof")
+		scenario := fs.String("scenario", "shared", "shared | private | sharedtypes | sharedallof | typeobject")
 		fs.Parse(args)
 		r := newRand(12)
 		type world struct {
@@ -213,6 +213,21 @@ func init() {
 				return s
 			}
 			switch *scenario {
+			case "typeobject":
+				// a type object that has an added type and an or rule of its own is used directly (Check, Validate, ...) while roots that
+				// were given it compile for the first time
+				v := jschema.New("@V", "1 // {or: [{type: \"integer\"}, {type: \"string\", maxLength: 3}]}")
+				u := jschema.New("@U", "{\n  \"v\": @V,\n  \"w\": @T\n}")
+				_ = u.AddType("@T", t)
+				_ = u.AddType("@V", v)
+				mku := func(name string) *jschema.Schema {
+					s := jschema.New(name, "{\n  \"a\": @T,\n  \"x\": @U // {optional: true}\n}")
+					_ = s.AddType("@T", t)
+					_ = s.AddType("@U", u)
+					_ = s.AddType("@V", v)
+					return s
+				}
+				return []*jschema.Schema{mku("s1"), u, mku("s2")}
 			case "shared":
 				return []*jschema.Schema{mk("s")}
 			case "private":
